@@ -44,7 +44,12 @@ MANIFEST = {
              "numbers of variants (initial with fewer variants than the change series: broadcast rule `pickVariant`, last supplied variant "
              "repeated) are compared variant by variant and checked by a round-trip oracle; sequences of calls that reuse the same Span / "
              "initial / change objects are checked by an oracle (arguments unchanged, result equal to a call with fresh arguments, round "
-             "trip on every call) -- object identity is outside the Lean model."),
+             "trip on every call) -- object identity is outside the Lean model. Since round 4 the model also has series with several "
+             "variants on shared rows (MSer): theorems `mtrim_spec` (trim removes exactly the leading/trailing rows missing in all "
+             "variants), variant locality of change / conversion / cumulation (`m*_variant_local`), `change_cells_only` (shared rows do "
+             "not leak), the shift argument as int / float / keyword / other string (`change_float_or_unknown_string_rejected`, "
+             "`cumArg_float`), the documented default initial values, and the keyword shifts with the C09 calendar rule explicit "
+             "(`change_soy_eopy_regular`, `change_tty_explicit`, `tty_neutral_fill`); tied by the whole-series stream `multi`."),
     "design": "7/C13",
     "note": ("IEEE rounding is outside the theorems (fields / reals); numpy's inf/nan results on zero divisors and non-positive logs "
              "are one 'missing' value in the model; variants are modelled one column at a time (multi-variant series: oracle only)."),
@@ -997,8 +1002,8 @@ def run_m(ctx: Ctx, cases, stream="multi"):
                             ch = getattr(ir, kind[4:])(x, case["shift"] if isinstance(case["shift"], int) and case["shift"] < 0 or case["shift"] in KEYWORDS else -1)
                         except Exception:
                             ch = x
-                    if ch.start is None or ch.data.shape[1] != nv:
-                        continue
+                    if ch.start is None or ch.data.shape[1] != nv or np.any(np.isinf(ch.data)):
+                        continue        # (an `inf` in the change series is `missing` on the pipe: not the same series any more)
                     ini = case["initial"]
                     if ini["kind"] == "series":
                         irows = [[NAN if v is None else float(v) for v in r] for r in ini["values"]]
@@ -1247,7 +1252,7 @@ def run(ctx: Ctx):
     run_lines(ctx, "conv", gen_conv_lines(ctx, rng.fork("conv"), ctx.n(600, 12000)))
     run_lines(ctx, "cum", gen_cum_lines(ctx, rng.fork("cum"), ctx.n(3500, 70000)))
     run_cumv(ctx, gen_cumv_cases(ctx, rng.fork("cumv"), ctx.n(400, 8000)))
-    run_m(ctx, gen_m_cases(ctx, rng.fork("multi"), ctx.n(1500, 25000)))
+    run_m(ctx, gen_m_cases(ctx, rng.fork("multi"), ctx.n(800, 20000)))
     for case in FIXED_ORACLE_CASES:
         run_oracle_case(ctx, case)
     xrng = ctx.rng.fork("oracle-extra")
